@@ -32,11 +32,11 @@ func init() {
 		Cases: func(tier string) int {
 			switch tier {
 			case "thorough":
-				return 2500000
+				return 8000000
 			case "race":
 				return 50000
 			}
-			return 400000
+			return 2400000
 		},
 		Run:            c10Run,
 		Floor:          func(tier string) int { return 5000 },
